@@ -21,6 +21,9 @@ func c04Plan(tier string, seed uint64) (jobs []rt.Job) {
 	rng := rt.NewRand(seed, "C04/plan")
 	q := tier == "quick"
 	hs := []int{4, 6, 8}
+	if !q {
+		hs = []int{4, 6, 8, 10}
+	}
 	for _, h := range hs {
 		for hf := 0; hf < 3; hf++ {
 			s := rng.Seed48()
@@ -37,7 +40,7 @@ func c04Plan(tier string, seed uint64) (jobs []rt.Job) {
 				a := c.args()
 				a["idx"] = idx
 				a["full"] = t == 0
-				a["allbits"] = !q && h == 4 && t == 1
+				a["allbits"] = !q && h <= 6 && t == 1
 				cost := 8.0
 				if !q {
 					cost = 20
@@ -49,14 +52,14 @@ func c04Plan(tier string, seed uint64) (jobs []rt.Job) {
 	// self-consistent triples for every height 4..30 and large indices, built by the reference without a tree
 	ns := 3
 	if !q {
-		ns = 24
+		ns = 64
 	}
 	for b := 0; b < ns; b++ {
 		jobs = append(jobs, rt.Job{ID: fmt.Sprintf("C04/sparse/%d", b), Kind: "sparse", Cost: 4, Args: map[string]interface{}{"batch": b}})
 	}
 	nr := 4
 	if !q {
-		nr = 32
+		nr = 64
 	}
 	for b := 0; b < nr; b++ {
 		jobs = append(jobs, rt.Job{ID: fmt.Sprintf("C04/random/%d", b), Kind: "random", Cost: 3, Args: map[string]interface{}{"n": 600}})
